@@ -276,10 +276,29 @@ class ReevaluationDiffers(Exception):
     pass
 
 
+_NOTHING = object()
+
+
+def abandon(q, k):
+    """Start an evaluation of an `an` query, take k results, close the iterator (nothing for k == 0 or a `the` query)."""
+    if not k or not hasattr(q, "evaluate") or type(q).__name__ == "The":
+        return
+    it = q.evaluate()
+    try:
+        for _ in range(k):
+            if next(it, _NOTHING) is _NOTHING:
+                break
+    finally:
+        close = getattr(it, "close", None)
+        if close:
+            close()
+
+
 def run_query(case, objs, negate=0, quant=None, times=1):
     """Build freshly and evaluate; returns (rows, built).  With times > 1 the same query object is evaluated again and
     every evaluation must return the row set of the first one (ReevaluationDiffers otherwise)."""
     built = build_query(case, objs, negate=negate, quant=quant)
+    abandon(built.q, case.get("abandon_first", 0))
     res = list(built.q.evaluate())
     first = rows_of(built, res)
     for n in range(2, times + 1):
